@@ -45,6 +45,7 @@ import DDProps.C12
 import DDProps.C12Dyn
 import DDProps.C12Sched
 import DDProps.C12Total
+import DDProps.C12Perm
 import DDProps.C13
 import DDProps.C13Counts
 import DDProps.C14
